@@ -71,6 +71,9 @@ func (p *Prog) lpath(v ssa.Value) string {
 	case *ssa.Parameter:
 		return "p:" + x.Name()
 	case *ssa.FreeVar:
+		if p.isParamCapture(x) {
+			return "p:" + x.Name()
+		}
 		return "fv:" + x.Name()
 	case *ssa.Const:
 		if x.Value == nil {
@@ -139,12 +142,22 @@ func (p *Prog) locPath(addr ssa.Value) string {
 	case *ssa.FieldAddr:
 		return p.basePath(a.X) + "." + fieldName(a)
 	case *ssa.Alloc:
+		if pn := p.paramCell(a); pn != "" {
+			return "p:" + pn
+		}
 		n := a.Comment
 		if n == "" || n == "complit" || n == "new" {
 			n = a.Name()
 		}
 		return "cell:" + n
 	case *ssa.FreeVar:
+		for _, b := range p.freeVarBindings(a) {
+			if al, ok := b.(*ssa.Alloc); ok {
+				if pn := p.paramCell(al); pn != "" {
+					return "p:" + pn
+				}
+			}
+		}
 		return "cell:" + a.Name()
 	case *ssa.Global:
 		return "g:" + globalName(a)
@@ -482,4 +495,43 @@ func (p *Prog) noReturn(b *ssa.BasicBlock) bool {
 	}
 	p.noRet[b] = r
 	return r
+}
+
+// paramCell: the alloc is the spill cell of a parameter that is never reassigned (captured by a closure);
+// returns the parameter's name.
+func (p *Prog) paramCell(a *ssa.Alloc) string {
+	st := p.cellStores(a)
+	if len(st) != 1 {
+		return ""
+	}
+	if pr, ok := st[0].Val.(*ssa.Parameter); ok && pr.Parent() == a.Parent() {
+		return pr.Name()
+	}
+	return ""
+}
+
+// isParamCapture: the free variable is bound (by value) to a parameter of an enclosing function, or to a
+// free variable that is.
+func (p *Prog) isParamCapture(fv *ssa.FreeVar) bool {
+	bs := p.freeVarBindings(fv)
+	if len(bs) == 0 {
+		return false
+	}
+	for _, b := range bs {
+		switch x := b.(type) {
+		case *ssa.Parameter:
+		case *ssa.FreeVar:
+			if !p.isParamCapture(x) {
+				return false
+			}
+		case *ssa.UnOp:
+			al, ok := x.X.(*ssa.Alloc)
+			if !ok || p.paramCell(al) == "" {
+				return false
+			}
+		default:
+			return false
+		}
+	}
+	return true
 }
